@@ -111,6 +111,9 @@ type playDef struct {
 	// JustBefore: the "just before the slot" play (see genJustBefore): re-run when every
 	// predecessor overran its slot
 	JustBefore bool
+	// RawCfg: if set, the whole configuration (a play the generator's cast/role scheme cannot
+	// express, e.g. without actors); the compiled play is then not exported
+	RawCfg string
 	// Rdv: the actions of the (single) scene group rendezvous: all of them must run at the same time
 	Rdv bool
 	// fault descriptor (C07)
@@ -121,6 +124,9 @@ type playDef struct {
 func durArg(ms int) string { return fmt.Sprintf("%d.%03d", ms/1000, ms%1000) }
 
 func (p *playDef) render(ledger string) string {
+	if p.RawCfg != "" {
+		return p.RawCfg
+	}
 	var b strings.Builder
 	actOf := map[string]actionDef{}
 	for _, a := range p.Actions {
@@ -1352,6 +1358,19 @@ func genC07(rng *rand.Rand, tier string) []*playDef {
 		p.Spot["x2"] = "cat >/dev/null; sleep 300"
 		add(p, "commands-read-open-stdin", "-")
 	}
+	// 6g. a play without actors: mood-only scenes 1 ms apart and 400 auditors disappointed by
+	// the first one, with -S: the prompter is cancelled while it hands the next mood change to
+	// the still busy audition
+	{
+		var sb strings.Builder
+		sb.WriteString("script\n  tempo 1ms\n  scene a mood starts red\n  scene b mood starts blue\n  scene c mood starts green\n  storyline abc\nend\naudience\n")
+		for i := 0; i < 400; i++ {
+			fmt.Fprintf(&sb, "  aud%d expects always: mood == 'clear'\n", i)
+		}
+		sb.WriteString("end\n")
+		p := &playDef{Spot: map[string]string{}, RoleOf: map[string]string{}, RawCfg: sb.String(), Flags: []string{"-S"}}
+		add(p, "mood-only-scenes-foul-S", "-")
+	}
 	// 7. commands that outlive their scene (sleep 300) while the play is stopped:
 	// the known finding "running-action-or-cleanup-not-interruptible" makes these slow
 	// (60 s hard limit, or the harness' own bound), so few of them in the quick tier.
@@ -1450,6 +1469,15 @@ func runStopCases() []stopCase {
 			}
 			out = append(out, stopCase{Kind: 1, K: k, NScenes: nsc, NLines: n, Story: story, Res: cmd.VerifPromptQuiesceAt(text, k, 20000)})
 		}
+	}
+	// mood-only lines first, the audition not receiving, the prompter cancelled
+	for _, n := range []int{1, 3} {
+		out = append(out, stopCase{Kind: 2, NLines: n, Story: "(mood-only lines)", Res: cmd.VerifRunSceneMoodCancelled(n, 100, 20000)})
+	}
+	moodCfg := "script\n  tempo 1ms\n  scene a mood starts red\n  scene b mood starts blue\n  scene c mood starts green\n  storyline abc\nend\n"
+	for _, consume := range []int{1, 2, 3} {
+		// the act change and (consume-1) mood changes are received, the next mood change blocks
+		out = append(out, stopCase{Kind: 3, K: consume, NScenes: 3, NLines: 1, Story: "abc (mood-only scenes)", Res: cmd.VerifPromptMoodCancelled(moodCfg, consume, 150, 20000)})
 	}
 	return out
 }
@@ -1598,7 +1626,7 @@ var faultKinds = []string{"none", "action-fails", "spotlight-fails", "spotlight-
 	"cleanup-hangs-2", "action-hangs-spotlight-fails", "action-hangs-audit-foul-S", "spotlight-graceful-hup", "audit-foul-S-chatty-long-action",
 	"signal-during-action", "signal-during-action-no-spotlights", "spotlight-ignores-hup-leader-signal",
 	"signal-during-initial-cleanup", "spotlight-setsid-child-holds-pipe", "action-hangs-two-sigints",
-	"commands-read-open-stdin"}
+	"commands-read-open-stdin", "mood-only-scenes-foul-S"}
 
 func faultIdx(f string) int {
 	for i, k := range faultKinds {
@@ -1740,6 +1768,10 @@ func main() {
 			}
 		}
 		for _, p := range plays {
+			if p.RawCfg != "" {
+				cases = append(cases, &caseOut{Name: p.Name, Prop: *prop, Def: p, Play: &cmd.VerifCfg{}})
+				continue
+			}
 			cfg, errs := compile(p)
 			if cfg == nil {
 				panic("c07 configuration rejected: " + errs + "\n" + p.render("/tmp/ledger"))
